@@ -1796,6 +1796,14 @@ impl PycZeroMtime {
         let py_path = input_path.with_file_name(format!("{base}.py"));
         debug!("Looking at {}…", py_path.display());
 
+        // Do not follow a symlink (or block on a FIFO) that happens to have this name.
+        if let Ok(meta) = py_path.symlink_metadata() {
+            if !meta.file_type().is_file() {
+                debug!("{}: not a file, ignoring", py_path.display());
+                return Ok(());
+            }
+        }
+
         let py_file = match File::open(&py_path) {
             Ok(some) => some,
             Err(e) => {
